@@ -418,7 +418,68 @@ func throughPipe(dir string, lines []string) (o obs) {
 	return o
 }
 
+// throughPipeSplit is throughPipe with the bytes written in two parts: everything up to the middle of the LAST
+// line, a pause, then the rest - a log writer that stalls in the middle of a record.
+func throughPipeSplit(dir string, lines []string, pause time.Duration) (o obs) {
+	path := filepath.Join(dir, fmt.Sprintf("sshd-pipe-%d", atomic.AddInt64(&pipeSeq, 1)))
+	if err := syscall.Mkfifo(path, 0o600); err != nil {
+		panic(err)
+	}
+	defer os.Remove(path)
+	r := newRig(len(lines) + 8)
+	ing := syslog.NewSyslogIngester(path, r.proc, namedpipe.NewNamedPipeIngester(mc.DebugLogger(), health.NewHealth()))
+	ctx, cancel := context.WithCancel(context.Background())
+	defer cancel()
+	before := r.counters()
+	done := make(chan error, 1)
+	go func() {
+		defer func() {
+			if p := recover(); p != nil {
+				o.Panic = p
+				done <- nil
+			}
+		}()
+		done <- ing.Ingest(ctx)
+	}()
+	w, err := os.OpenFile(path, os.O_WRONLY, 0)
+	if err != nil {
+		panic(err)
+	}
+	all := strings.Join(lines, "")
+	cut := len(all) - len(lines[len(lines)-1])/2
+	_, _ = w.WriteString(all[:cut])
+	time.Sleep(pause)
+	_, _ = w.WriteString(all[cut:])
+	w.Close()
+	select {
+	case <-done:
+	case <-time.After(60 * time.Second):
+		o.Panic = "the ingester did not return after the writer closed the pipe"
+		cancel()
+		<-done
+	}
+	o.Events = append(o.Events, r.rec.copies...)
+	for {
+		select {
+		case l := <-r.logins:
+			o.Logins = append(o.Logins, l)
+			continue
+		default:
+		}
+		break
+	}
+	o.Metrics = delta(before, r.counters())
+	return o
+}
+
 var pipeSeq int64
+
+func max0(i int) int {
+	if i < 0 {
+		return 0
+	}
+	return i
+}
 
 // direct processes the (pid, message) pairs one after the other with the real processor.
 func direct(cases []c07case) (o obs) {
@@ -580,10 +641,45 @@ func runC07(run *mc.Run) int {
 	close(jobs)
 	wg.Wait()
 	n := len(all)
+	// a writer that stalls in the middle of a record (0.3 s; thorough also 1.5 s): one representative per form
+	pauses := []time.Duration{300 * time.Millisecond}
+	if run.Thorough() {
+		pauses = append(pauses, 1500*time.Millisecond)
+	}
+	seenForm := map[string]bool{}
+	var reps []c07case
+	for _, c := range all {
+		if !seenForm[c.Form] && c.Tag == "newline" {
+			seenForm[c.Form] = true
+			reps = append(reps, c)
+		}
+	}
+	var pwg sync.WaitGroup
+	for _, pz := range pauses {
+		for i := range reps {
+			pwg.Add(1)
+			go func(pz time.Duration, cs []c07case) {
+				defer pwg.Done()
+				var lines []string
+				for _, c := range cs {
+					lines = append(lines, c.Line)
+				}
+				a, b := direct(cs), throughPipeSplit(dir, lines, pz)
+				if a.canon() != b.canon() {
+					c := cs[len(cs)-1]
+					atomic.AddInt64(&differ, 1)
+					run.Violation("C07:"+c.Form+":writer-pauses-mid-record", map[string]any{"cases": cs, "pause_ms": pz.Milliseconds()},
+						fmt.Sprintf("the lines %q written to the pipe with a pause of %v in the middle of the last one give\n%sbut their (pid, message) pairs handed to the processor directly give\n%s", lines, pz, b.canon(), a.canon()))
+				}
+			}(pz, reps[max0(i-1):i+1])
+		}
+	}
+	pwg.Wait()
+	n += len(reps) * len(pauses)
 	// audit side: every record line of the audit generator parses identically with and without its newline
 	na, bad := auditLinesSame(run)
 	cov := mc.Coverage{Level: "exploration", Evaluations: n*2 + na*2, Distinct: n/len(framings) + na, Exhaustive: complete, Samples: sm.samples,
-		Rule:  "differential, end to end: every (pid,message) of the C06 product (+ messages with internal runs of blanks) is processed once directly by the real sshd processor and once written as a framed line to a real FIFO read by the real SyslogIngester.Ingest (named-pipe ingester -> syslog ingester -> processor); framings: '<pid> <msg>\\n', 3 padding blanks, the message ending in blank / tab / CR, and the message without its pid prefix right after ordinary lines (its first word then IS the pid token); lines go in batches of 400, a differing batch is re-run line by line; events (minus wall-clock stamp), forwarded logins, counter deltas and errors must be equal. Every generated audit record line is parsed by auparse with and without its trailing newline. distinct_nontrivial = distinct (pid,message) pairs + distinct audit lines",
+		Rule:  "differential, end to end: every (pid,message) of the C06 product (+ messages with internal runs of blanks) is processed once directly by the real sshd processor and once written as a framed line to a real FIFO read by the real SyslogIngester.Ingest (named-pipe ingester -> syslog ingester -> processor); framings: '<pid> <msg>\\n', 3 padding blanks, the message ending in blank / tab / CR, and the message without its pid prefix right after ordinary lines (its first word then IS the pid token); lines go in batches of 400, a differing batch is re-run line by line; one line per form is also written with a pause of 0.3 s (thorough: 1.5 s) in the middle of the record; events (minus wall-clock stamp), forwarded logins, counter deltas and errors must be equal. Every generated audit record line is parsed by auparse with and without its trailing newline. distinct_nontrivial = distinct (pid,message) pairs + distinct audit lines",
 		Extra: map[string]any{"lines_per_form": sm.forms, "framings": len(framings), "batches": batches, "pairs_that_differ": differ, "audit_lines": na, "audit_lines_differing": bad}}
 	cov.Assumptions = []string{"which layer strips the record terminator is not assumed: the framed path starts at the pipe"}
 	return run.Finish(cov)
